@@ -798,11 +798,88 @@ def check_fileop(spec):
     return Case(nontrivial, sorted(classes), info={'file_operations': 1})
 
 
+# ------------------------------------------------------------------ stacking CSR piece files (amalgamate_csr_to_x)
+def _fit_dtype(name, top):
+    order = ['int8', 'uint8', 'int16', 'uint16', 'int32', 'uint32', 'int64']
+    for n in order[order.index(name):]:
+        if top <= np.iinfo(np.dtype(n)).max:
+            return np.dtype(n)
+    return np.dtype('int64')
+
+
+def check_stack_pieces(spec):
+    import scipy.sparse as sp
+    import anndata
+    import pandas as pd
+    from cell_type_mapper.utils.anndata_utils import amalgamate_csr_to_x
+    nr, nc = spec['shape']
+    rng = np.random.default_rng(spec['seed'])
+    dt = np.dtype(spec['dtype'])
+    vals = rng.integers(1, 100, (nr, nc))
+    x = (vals * (rng.random((nr, nc)) < spec['density'])).astype(dt)
+    bounds = [0] + list(spec['cuts']) + [nr]
+    ctx = {'op': 'stack_pieces', 'shape': [nr, nc], 'cuts': spec['cuts'], 'seed': spec['seed'], 'density': spec['density']}
+    classes = {'S_stack_pieces'}
+    used = []
+    with sandbox() as d:
+        paths = []
+        for i, (a, b) in enumerate(zip(bounds[:-1], bounds[1:])):
+            m = sp.csr_matrix(x[a:b])
+            m.sort_indices()
+            idt = _fit_dtype(spec['idx_dtypes'][i], max(int(m.nnz), nc))
+            used.append(idt.name)
+            pth = f'{d}/piece_{i}.h5'
+            with h5py.File(pth, 'w') as f:
+                f.create_dataset('data', data=m.data.astype(dt))
+                f.create_dataset('indices', data=m.indices.astype(idt))
+                f.create_dataset('indptr', data=m.indptr.astype(idt))
+            paths.append(pth)
+        dst = f'{d}/stacked.h5ad'
+        anndata.AnnData(obs=pd.DataFrame(index=[f'c{i}' for i in range(nr)]),
+                        var=pd.DataFrame(index=[f'g{i}' for i in range(nc)])).write_h5ad(dst)
+        ctx['index_dtypes'] = used
+        try:
+            with quiet():
+                amalgamate_csr_to_x(src_path_list=paths, dst_path=dst, final_shape=(nr, nc), dst_grp='X',
+                                    compression=spec['compression'])
+        except Exception as e:
+            raise Violation('raised', dict(ctx, error=_err(e)))
+        with h5py.File(dst, 'r') as f:
+            indptr, indices, data = f['X/indptr'][()], f['X/indices'][()], f['X/data'][()]
+            enc = f['X'].attrs.get('encoding-type')
+            shape = [int(v) for v in f['X'].attrs['shape']]
+        if enc != 'csr_matrix' or shape != [nr, nc]:
+            raise Violation('declared_encoding', dict(ctx, encoding=str(enc), declared_shape=shape))
+        prob = g.structure_problem(indptr, indices, data, nr, nc)
+        if prob is not None:
+            raise Violation(prob[0], dict(ctx, **prob[1]))
+        got = g.densify(indptr, indices, data, nr, nc)
+        if not np.array_equal(got, x.astype(got.dtype)):
+            bad = np.argwhere(got != x.astype(got.dtype))[:5].tolist()
+            raise Violation('matrix_equal', dict(ctx, first_differences=bad))
+        with quiet():
+            back = anndata.read_h5ad(dst)
+        bx = back.X.toarray() if hasattr(back.X, 'toarray') else np.asarray(back.X)
+        if not np.array_equal(bx, x.astype(bx.dtype)):
+            raise Violation('matrix_equal_via_anndata', ctx)
+    nnz = int((x != 0).sum())
+    narrow = [u for u in used if np.dtype(u).itemsize < 4]
+    if narrow:
+        classes.add('S_stack_narrow_index_piece')
+    if narrow and nnz > min(np.iinfo(np.dtype(u)).max for u in narrow):
+        classes.add('S_stack_total_exceeds_narrow_index_type')
+    classes.add(f'S_stack_{len(used) if len(used) < 3 else "3+"}_pieces')
+    classes.add('S_nnz_0' if nnz == 0 else 'S_nnz_ge_1')
+    return Case(len(used) >= 2 and nnz >= 2, sorted(classes), info={'in_memory_operations': 1})
+
+
 # ------------------------------------------------------------------ in-memory pointer arithmetic (utils/sparse_utils.py)
 def check_sparse_utils(spec):
     import scipy.sparse as sp
     from cell_type_mapper.utils import sparse_utils as su
     op = spec['op']
+    if op == 'stack_pieces':
+        return check_stack_pieces(spec)
     x = np.array(spec['x'], dtype=np.dtype(spec['dtype']))
     nr, nc = x.shape
     ctx = {'op': op, 'shape': [nr, nc]}
